@@ -639,11 +639,13 @@ def _polynomial_integrate(
         # Ensure the resulting degree fits within the pre-allocated list for the integral
         if d_res <= integral_max_deg:
             if d_orig < len(poly_p) and np.any(poly_p[d_orig]):
+                # The kernel looks up the size of the degree-(d_orig + 1) block: that is
+                # a column of the result's table, not of the input's.
                 term_integral_coeffs = _poly_integrate(
                     poly_p[d_orig],
                     var_idx,
                     d_orig,
-                    psi_table,
+                    integral_psi_table,
                     clmo_table,
                     encode_dict_list
                 )
